@@ -67,7 +67,7 @@ CLAIMED = {
               'per job ran + cancelled == 1, ran only on a worker id, cancelled coroutines see await_canceled_exception, run() futures report a broken promise, nothing forgotten after a drain (lost notification) or after stop(), '
               'workers joined / self-detached, no join deadlock, allocation balance. Unit h_stop_prepark: stop() of another thread while a worker is entering condition_variable::wait (pre-park hook; counterexamples confirmed on the natively executed translation). Unit h_stop_race: a submission against stop() of another thread placed in front of every mutex acquisition of the submission: nothing is left pending once stop() has returned. Known finding (printed, exit 0): raw-handle jobs meeting a stopped pool are dropped (D9).', 'DESIGN.md 3.7, 5/C11', T_E1 + T_INJ),
     'C12': e1('Manual-mode histories over sleep_until/schedule, cancel(id[,e]), remove(id), get_expired(now) with time points enumerated up to weak order (ties included) and identifiers canonical, against a per-sleep '
-              'reference model; unit h_cover: one step (every cancel / get_expired, thorough also sleep / cancel(e) / remove, at every position) from every abstract heap state with <= 3 entries (alive or emptied) that a breadth-first search over the abstraction reaches (209 states; quick: get_expired from the 90 states reached within 5 operations, cancel from the 38 reached within 3); unit h_order: 6 (thorough 5..7) pending sleeps in arrival orders (quick: every 12th of the 720), then get_expired at each time value in turn hands out exactly the due sleep; the interval() generator with a stop token (request_stop while sleeping / parked / before start; double-lock of the scheduler mutex is a failure); start(awaitable) under a virtual '
+              'reference model; unit h_cover: one step (every cancel / get_expired, thorough also sleep / cancel(e) / remove, at every position) from every abstract heap state with <= 3 entries (alive or emptied) that a breadth-first search over the abstraction reaches (209 states; quick: get_expired from the 90 states reached within 5 operations, cancel from the 38 reached within 3); unit h_order: 6 (thorough 5..6) pending sleeps in arrival orders (quick: every 12th of the 720), then get_expired at each time value in turn hands out exactly the due sleep; the interval() generator with a stop token (request_stop while sleeping / parked / before start; double-lock of the scheduler mutex is a failure); start(awaitable) under a virtual '
               'clock with up to 3 scripted sleepers (never early, on time when idle, in deadline order, cancels hit exactly their target); destruction cancels pending sleeps. Unit h_start_mt: another thread\'s sleep_until placed in front of every acquisition of the scheduler mutex by the scheduling thread, or inside its timed wait (the wait must be woken when the new entry is the earliest): the foreign sleep is woken at its own time point.', 'DESIGN.md 3.8, 5/C12', T_E1 + T_INJ),
     'C13': e1('Scripted generator bodies (yield lvalue/temporary, await ready / pending future, throw, return; up to 6 entries) x sequences of 11 consumer access styles (next()/value(), iterators, range-for, call -> future, '
               'co_await of either) for generator<int> and generator<int,int>: observed values, argument echo, exception position, single end indication then done(), RAII probes and allocation balance when '
